@@ -291,7 +291,12 @@ pub fn generate_c18(rng: &mut Rng) -> Scenario {
     for i in 0..n_gens {
         // sometimes the same generator is listed twice
         let path = if i > 0 && rng.chance(1, 8) { metas.last().map(|m: &GenMeta| m.path.clone()).unwrap() } else { paths[i].to_owned() };
-        let args = random_args(rng);
+        let mut args = random_args(rng);
+        // two listings of one path always differ in their arguments: a compiler may start its generators in any
+        // order, and the arguments a process received are then the only thing that tells the listings apart
+        if metas.iter().any(|m: &GenMeta| m.path == path && m.args == args) {
+            args.push(("listing".to_owned(), i.to_string()));
+        }
         let reply = reply_from_pool(rng, 3, hint < 20_000);
         let b: Behaviour = if fault_free || rng.chance(2, 5) { gens::ok(rng, &reply, small_caps) } else { gens::failing(rng, &reply, hint, small_caps) };
         if b.kind == "ok" {
